@@ -118,7 +118,7 @@ func checkC10(c *Check) {
 	// ---------- 4: prompt failure after transport loss (who-may-block) ----------
 	n := 0
 	for _, fn := range p.PkgFuncs("container") {
-		if fn.Signature.Recv() == nil || !strings.HasSuffix(fn.Signature.Recv().Type().String(), "container.container") || fn.Name() == "recvLoop" {
+		if !operatesOn(fn, "container.container") || fn.Name() == "recvLoop" {
 			continue
 		}
 		for _, op := range chanOpsOf(fn) {
@@ -244,7 +244,7 @@ func checkReplyAcknowledged(c *Check, rule string) {
 	p := c.P
 	n := 0
 	for _, fn := range p.PkgFuncs("container") {
-		if fn.Signature.Recv() == nil || !strings.HasSuffix(fn.Signature.Recv().Type().String(), "container.containerServer") {
+		if !operatesOn(fn, "container.containerServer") {
 			continue
 		}
 		for _, b := range fn.Blocks {
